@@ -79,11 +79,11 @@ pub struct Layout {
     #[serde(default)]
     pub empty_tags: bool,
     /// further attributes around ID / ID-REF (names that end like them: OID, UUID, OID-REF), 0 = none, 1 = in front,
-    /// 2 = behind, 3 = both
+    /// 2 = behind, 3 = both; bit 2: the attribute behind ends in non-ASCII text; bit 3: the file starts with a byte order mark
     #[serde(default)]
     pub extra_attrs: u8,
     /// documentation (`DESC`) on elements whose description is not part of the model: bit 0 codings, bit 1 signals,
-    /// bit 2 frames, bit 3 project and ECU
+    /// bit 2 frames, bit 3 project and ECU; bit 4: codings also carry a PHYSICAL-TYPE next to their CODED-TYPE
     #[serde(default)]
     pub foreign_desc: u8,
 }
@@ -386,7 +386,9 @@ fn id_attr(l: &Layout, id: &str) -> String {
     } else {
         ""
     };
-    let back = if l.extra_attrs & 2 != 0 {
+    let back = if l.extra_attrs & 4 != 0 {
+        " NOTE=\"Zähler_ü\""
+    } else if l.extra_attrs & 2 != 0 {
         " xsi:type=\"fx:OTHER\" SID=\"9\""
     } else {
         ""
@@ -481,6 +483,9 @@ pub fn render(m: &Model, l: &Layout) -> Vec<String> {
             counter: file as u32,
             extra_attrs: l.extra_attrs,
         };
+        if l.extra_attrs & 8 != 0 {
+            w.s.push('\u{feff}'); // byte order mark
+        }
         w.s.push_str("<?xml version=\"1.0\" encoding=\"UTF-8\"?>");
         let root = format!("{}FIBEX", st.fx);
         w.open(
@@ -532,11 +537,20 @@ pub fn render(m: &Model, l: &Layout) -> Vec<String> {
                             &format!("documentation of coding {}", id),
                         );
                     }
+                    if l.foreign_desc & 16 != 0 && id.len() % 2 == 0 {
+                        // the physical type of a scaled signal, as ASAM exports write it next to the coded type (not part of the model)
+                        w.nl();
+                        w.s.push_str(&format!("<{h}PHYSICAL-TYPE {h}BASE-DATA-TYPE=\"A_FLOAT64\"/>", h = st.ho));
+                    }
                     w.nl();
                     if st.pairs {
                         w.s.push_str(&format!("<{h}CODED-TYPE {h}BASE-DATA-TYPE=\"{}\" CATEGORY=\"STANDARD-LENGTH-TYPE\"></{h}CODED-TYPE>", esc_attr(base), h = st.ho));
                     } else {
                         w.s.push_str(&format!("<{h}CODED-TYPE {h}BASE-DATA-TYPE=\"{}\" CATEGORY=\"STANDARD-LENGTH-TYPE\"/>", esc_attr(base), h = st.ho));
+                    }
+                    if l.foreign_desc & 16 != 0 && id.len() % 2 == 1 {
+                        w.nl();
+                        w.s.push_str(&format!("<{h}PHYSICAL-TYPE {h}BASE-DATA-TYPE=\"A_FLOAT64\"></{h}PHYSICAL-TYPE>", h = st.ho));
                     }
                     w.close(&t);
                 }
@@ -836,7 +850,17 @@ fn model_sized(large: bool) -> BoxedStrategy<Model> {
                 .map(|((idn, canonical), short_name, byte_length, refs, ext)| {
                     let sq = seqs(&refs.iter().map(|s| s.0).collect::<Vec<_>>());
                     Frame {
-                        id: if canonical { format!("ID_{}", idn) } else { format!("FRAME-{}", idn % 4) },
+                        // mostly ID_<n>; also names, ids that begin like a numbered one, numbers beyond 32 bits
+                        id: if canonical {
+                            format!("ID_{}", idn)
+                        } else {
+                            match idn % 9 {
+                                0 => format!("ID_{}x", idn % 40),
+                                1 => format!("ID_{}_1", idn % 7),
+                                2 => "ID_99999999999".to_string(),
+                                _ => format!("FRAME-{}", idn % 4),
+                            }
+                        },
                         short_name,
                         byte_length,
                         pdus: if n_pdus == 0 { vec![] } else { refs.iter().zip(sq).map(|((_, r), s)| (s, pdus[*r as usize % n_pdus].id.clone())).collect() },
@@ -844,6 +868,22 @@ fn model_sized(large: bool) -> BoxedStrategy<Model> {
                     }
                 })
                 .collect();
+            // later definitions of a frame id often repeat the application / context ids of an earlier definition of that
+            // id (not necessarily the first one): three and more definitions with shared and with different id pairs
+            for i in 1..frames.len() {
+                let earlier: Vec<usize> = (0..i).filter(|j| frames[*j].id == frames[i].id && frames[*j].ext.is_some()).collect();
+                if !earlier.is_empty() && (frames[i].byte_length + i as u32) % 3 == 0 {
+                    let from = earlier[(frames[i].byte_length as usize / 3) % earlier.len()];
+                    let (a, c) = {
+                        let e = frames[from].ext.as_ref().unwrap();
+                        (e.application_id.clone(), e.context_id.clone())
+                    };
+                    if let Some(e) = &mut frames[i].ext {
+                        e.application_id = a;
+                        e.context_id = c;
+                    }
+                }
+            }
             if dangling {
                 if let Some(f) = frames.last_mut() {
                     let s = f.pdus.last().map(|p| p.0 + 1).unwrap_or(0);
@@ -865,8 +905,8 @@ pub fn layout() -> BoxedStrategy<Layout> {
         0u8..3,
         prop::bool::weighted(0.3),
         prop::bool::weighted(0.25),
-        prop_oneof![3 => Just(0u8), 1 => 1u8..4],
-        prop_oneof![2 => Just(0u8), 1 => 1u8..16],
+        prop_oneof![3 => Just(0u8), 1 => 1u8..4, 1 => 4u8..16],
+        prop_oneof![2 => Just(0u8), 1 => 1u8..32],
     )
         .prop_map(
             |(
